@@ -19,7 +19,9 @@ def is_nop(mn, text):
 def verify(rep, jobs, L, phase, variant):
     """jobs: list of dict(start, calls=[(chunk or None, [lengths])], n).  A call with chunk None keeps the setting."""
     hs = []
+    L0 = L
     for j in jobs:
+        L = j.get("L") or L0          # per-job line table (the per-form sweep uses one specific line per job)
         ops = ["o%d" % j["start"]]
         for c, ls in j["calls"]:
             if isinstance(c, str):      # 'N<c>': a counting call in between (it must not disturb the fitting setting)
@@ -33,6 +35,7 @@ def verify(rep, jobs, L, phase, variant):
     gaps = {}
     pend = []
     for j, obs in zip(jobs, res):
+        L = j.get("L") or L0
         rep.evaluations += 1
         rep.traces += 1
         rep.transitions += len(j["calls"])
@@ -109,6 +112,8 @@ def replay(r, verbose=False):
     rep.findings = []
     j = r["job"]
     j["calls"] = [(c, list(ls)) for c, ls in j["calls"]]
+    if j.get("L"):
+        j["L"] = {int(k): tuple(v) for k, v in j["L"].items()}
     verify(rep, [j], L, "replay", r.get("variant", "plain"))
     if verbose:
         print(j, "->", [p[3] for p in rep.pending])
@@ -197,6 +202,28 @@ def run(tier, seed):
                             jobs.append({"start": p, "calls": calls, "n": 256})
         verify(rep, jobs, L, "switch+count", variant)
         rep.bounds["switching_histories_with_counting"] = len(jobs)
+        rep.states += len(jobs)
+    # every instruction FORM (not only every length) at the phases that decide padding: ending exactly on a boundary (no
+    # padding), crossing it by one byte, one byte of room, start of a chunk - padding decisions that look at anything but
+    # the encoded length show here
+    if not rep.expired():
+        from . import c06, c16
+        big = sorted({t for t, _ in c16.base_lines("quick")})
+        keep, table = c06.singles_cfg(big, [hexec.DEFAULT_CFG])
+        jobs = []
+        for t in keep:
+            hx = table[(t, hexec.DEFAULT_CFG)]
+            l = len(hx) // 2
+            Lj = {l: (t, hx)}
+            for c in (8, 16, 32):
+                if l >= c:
+                    continue
+                for p in sorted({c - l, c - l + 1, c - 1, 0, 2 * c - l}):
+                    jobs.append({"start": p, "calls": [(c, [l])], "n": 256, "L": Lj, "line": t})
+                    if models.fit_layout(p, [l], c)[0][0][0]:
+                        nontriv += 1
+        verify(rep, jobs, L, "per-form", variant)
+        rep.bounds["per_form_boundary_cases"] = len(jobs)
         rep.states += len(jobs)
     rep.distinct_n = nontriv
     rep.sample({"history": hist(256, ["o3", "k8", "A" + hexec.esc(L[7][0] + "\n" + L[3][0] + "\n")]),
